@@ -447,3 +447,127 @@ Proof.
   rewrite map_map. destruct x as [d n sg pt st']. cbn [cx_domain cx_name cx_sigs cx_ports cx_spicetype] in *.
   f_equal. f_equal. rewrite <- (map_id sg) at 2. apply map_ext. intros [a b]. reflexivity.
 Qed.
+
+(* ------------------------------------------------------------------------------------------ instances *)
+Definition conns_normal (sigs : list (name * Z)) (ports : list string) (cs : list (name * ptarget)) : bool :=
+  forallb (fun c : name * ptarget => smem (fst c) ports) cs && snodup (map fst cs) &&
+  forallb (fun c : name * ptarget => target_normal sigs (snd c)) cs.
+
+(* the reference and the parameters of an instance come back unchanged; `ports` are the port names of its target *)
+Definition ref_roundtrips (exts : list c11ext) (earlier : list c11mod) (i : c11inst) (ports : list string) : Prop :=
+  rt_ref exts earlier (ci_ref i) (ci_params i) = Ok (ci_ref i, ci_params i, ports).
+
+Lemma inst_roundtrip exts earlier sigs i ports :
+  ref_roundtrips exts earlier i ports -> conns_normal sigs ports (ci_conns i) = true -> rt_inst exts earlier sigs i = Ok i.
+Proof.
+  unfold ref_roundtrips, conns_normal, rt_inst. intros Hr H. apply andb_true_iff in H. destruct H as [H H3].
+  apply andb_true_iff in H. destruct H as [H1 H2]. rewrite Hr. cbn [bind]. rewrite H1, H2. cbn [chk bind].
+  rewrite (traverse_id _ (ci_conns i)).
+  - cbn [bind]. destruct i; reflexivity.
+  - intros [p t] Hin. rewrite forallb_forall in H3. specialize (H3 _ Hin). cbn [snd fst] in *.
+    rewrite (target_roundtrip sigs t H3). reflexivity.
+Qed.
+
+(* instances of modules defined earlier in the package *)
+Lemma ref_local_roundtrip exts earlier i nm m :
+  ci_ref i = PLocal nm -> find_c11mod earlier nm = Some m -> ci_params i = [] ->
+  ref_roundtrips exts earlier i (map fst (cm_ports m)).
+Proof.
+  intros Hr Hf Hp. unfold ref_roundtrips. rewrite Hr, Hp. cbn [rt_ref]. rewrite Hf. cbn [bind chk]. rewrite name_roundtrip. reflexivity.
+Qed.
+
+(* instances of external modules declared in the package *)
+Definition is_prim_domain (dom : string) : bool :=
+  String.eqb dom "vlsir.primitives" || String.eqb dom "hdl21.primitives" || String.eqb dom "hdl21.ideal".
+
+Lemma ref_ext_roundtrip exts earlier i dom nm x :
+  ci_ref i = PExt dom nm -> is_prim_domain dom = false -> find_c11ext exts dom nm = Some x ->
+  dict_params_normal (ci_params i) = true -> ref_roundtrips exts earlier i (map fst (cx_sigs x)).
+Proof.
+  intros Hr Hd Hf Hp. unfold ref_roundtrips. rewrite Hr. cbn [rt_ref]. unfold is_prim_domain in Hd.
+  apply orb_false_iff in Hd. destruct Hd as [Hd H3]. apply orb_false_iff in Hd. destruct Hd as [H1 H2].
+  rewrite H1, H2, H3. cbn [orb]. rewrite Hf. cbn [bind]. rewrite (dict_params_roundtrip _ Hp). reflexivity.
+Qed.
+
+(* instances of primitives: the reference comes back for every primitive of the regenerated tables *)
+Definition ideal_ref_ok (vh : string * string) : bool :=
+  match lookup_prim (snd vh) with
+  | Ok h => match export_prim_ref h with Ok r => pref_eqb r (PExt "vlsir.primitives" (fst vh)) | Error _ => false end
+  | Error _ => false
+  end.
+Definition physical_ref_ok (e : string * string * list (string * string * bool * bool)) : bool :=
+  negb (String.eqb (snd (fst e)) "PHYSICAL") ||
+  match lookup_prim (fst (fst e)) with
+  | Ok h => match export_prim_ref h with Ok r => pref_eqb r (PExt "hdl21.primitives" (fst (fst e))) | Error _ => false end
+  | Error _ => false
+  end.
+
+Lemma prim_refs_roundtrip :
+  forallb ideal_ref_ok prim_map_import = true /\ forallb physical_ref_ok prim_fields = true.
+Proof. vm_compute. split; reflexivity. Qed.
+
+(* ------------------------------------------------------------------------------------------ modules *)
+Fixpoint pairs_eqb (a b : list (name * Z)) : bool :=
+  match a, b with
+  | [], [] => true
+  | x :: a', y :: b' => String.eqb (fst x) (fst y) && (snd x =? snd y) && pairs_eqb a' b'
+  | _, _ => false
+  end.
+Lemma pairs_eqb_eq a : forall b, pairs_eqb a b = true -> a = b.
+Proof.
+  induction a as [|[x1 x2] a IH]; destruct b as [|[y1 y2] b]; simpl; try discriminate; [reflexivity|].
+  intros H. apply andb_true_iff in H. destruct H as [H H3]. apply andb_true_iff in H. destruct H as [H1 H2].
+  apply String.eqb_eq in H1. apply Z.eqb_eq in H2. subst. f_equal. apply IH. exact H3.
+Qed.
+
+(* what the exporter writes for the signals of a module: internal signals first, then the ports in port order *)
+Definition mod_sigs_normal (m : c11mod) : bool :=
+  ports_ok (cm_sigs m) (cm_ports m) &&
+  slist_eqb (map fst (filter (isp (cm_ports m)) (cm_sigs m))) (map fst (cm_ports m)) &&
+  pairs_eqb ((filter (fun sw => negb (isp (cm_ports m) sw)) (cm_sigs m)) ++ filter (isp (cm_ports m)) (cm_sigs m))%list (cm_sigs m).
+
+Definition mod_normal_head (earlier : list c11mod) (m : c11mod) : bool :=
+  negb (existsb (fun m' => String.eqb (cm_name m') (cm_name m)) earlier) && mod_sigs_normal m && snodup (map ci_name (cm_insts m)).
+
+Lemma mod_roundtrip exts earlier m :
+  mod_normal_head earlier m = true ->
+  (forall i, In i (cm_insts m) -> exists ports, ref_roundtrips exts earlier i ports /\ conns_normal (cm_sigs m) ports (ci_conns i) = true) ->
+  rt_mod exts earlier m = Ok m.
+Proof.
+  unfold mod_normal_head, mod_sigs_normal. intros H Hi. apply andb_true_iff in H. destruct H as [H Hn].
+  apply andb_true_iff in H. destruct H as [He H]. apply andb_true_iff in H. destruct H as [H Hs].
+  apply andb_true_iff in H. destruct H as [Hp Hf].
+  unfold rt_mod. rewrite He. cbn [chk bind]. rewrite (import_sigs_ok _ _ Hp). cbn [bind]. rewrite Hn. cbn [chk bind].
+  rewrite (traverse_id _ (cm_insts m)).
+  2:{ intros i Hin. destruct (Hi i Hin) as [ports [Hr Hc]]. apply (inst_roundtrip _ _ _ _ ports); assumption. }
+  cbn [bind]. rewrite (export_ports_normal _ _ Hp Hf). cbn [bind]. rewrite name_roundtrip.
+  rewrite (filter_map_comm _ (fun sw => negb (isp (cm_ports m) sw))) by (intros x; rewrite is_port_hsig; reflexivity).
+  rewrite (filter_map_comm _ (isp (cm_ports m))) by (apply is_port_hsig).
+  rewrite !map_map. cbn [hsig_of hs_name hs_width].
+  assert (forall l : list (name * Z), map (fun x => (fst x, snd x)) l = l) as Hid.
+  { intros l. rewrite <- (map_id l) at 2. apply map_ext. intros [a b]. reflexivity. }
+  rewrite !Hid. apply pairs_eqb_eq in Hs. rewrite Hs. destruct m; reflexivity.
+Qed.
+
+(* ------------------------------------------------------------------------------------------ packages *)
+Lemma rt_mods_roundtrip exts ms : forall earlier,
+  (forall pre m post, ms = (pre ++ m :: post)%list -> rt_mod exts (earlier ++ pre)%list m = Ok m) ->
+  rt_mods exts earlier ms = Ok ms.
+Proof.
+  induction ms as [|m ms IH]; intros earlier H; [reflexivity|]. cbn [rt_mods].
+  pose proof (H [] m ms eq_refl) as H0. rewrite app_nil_r in H0. rewrite H0. cbn [bind].
+  rewrite IH; [reflexivity|]. intros pre m' post E. specialize (H (m :: pre) m' post). rewrite <- app_assoc. apply H.
+  rewrite E. reflexivity.
+Qed.
+
+Lemma pkg_roundtrip p :
+  nodup_ext_names (ck_exts p) = true ->
+  forallb ext_normal (ck_exts p) = true ->
+  (forall pre m post, ck_mods p = (pre ++ m :: post)%list -> rt_mod (ck_exts p) pre m = Ok m) ->
+  rt_pkg p = Ok p.
+Proof.
+  intros Hn He Hm. unfold rt_pkg. rewrite Hn. cbn [chk bind].
+  rewrite (traverse_id rt_ext).
+  2:{ intros x Hin. apply ext_roundtrip. rewrite forallb_forall in He. apply He. exact Hin. }
+  cbn [bind]. rewrite rt_mods_roundtrip; [destruct p; reflexivity|]. intros pre m post E. apply (Hm pre m post). exact E.
+Qed.
